@@ -38,9 +38,11 @@ PROPS = {
             'C19 contracts (innermost-first resolution, redeclaration only in the current scope, ids index the final table)',
             'Context::lookup_symbol / lookup_gate_symbol push exactly one UndefVarError / UndefGateError iff resolution fails, nothing otherwise, and resolve innermost-first',
             'Context::new_binding pushes exactly one RedeclarationError(name) iff the name is in the current scope and never replaces the first binding',
+            'lookup_identifier: id and type of the symbol, or (Err, Type::Undefined) with exactly one UndefVarError',
+            'classical declarations bind the name after the type and the initializer were analysed (the binding is the last symbol-table event of the statement)',
         ],
         not_decided=['that every construct is wrapped in enter/exit (stmt_to_asg_stmt: closures)', 'gate/def parameter binding (bind_*)',
-                     'analysis order initializer-before-binding (SEMA unit, when available)'],
+                     ],
         explanation='Verus; see C19.',
     ),
     'C14': dict(
@@ -63,8 +65,9 @@ PROPS = {
             'inner_extend_token: every punctuation / comment / whitespace / pragma / annotation / literal-class lexer kind maps to the parser kind of the same meaning; `_` <-> UNDERSCORE',
             'no spurious lexical error on well-formed comment / whitespace / ident / pragma / annotation / version tokens',
             'scanner kind postconditions: line comment, block comment, whitespace, identifier classes',
+            'a token starting with a digit is the numeric literal of the OpenQASM 3 syntax (spec function num_spec): class, base, flags and extent by maximal munch; digit runs and exponents are consumed by maximal munch',
         ],
-        not_decided=['keyword / type-name table beyond "a keyword kind is a token kind" (str matching)', 'maximal-munch extents of numbers and identifiers (stage B contracts)',
+        not_decided=['keyword / type-name table beyond "a keyword kind is a token kind" (str matching)', 'maximal-munch extents of identifiers, strings and comments',
                      'lifting per-token facts to arbitrary lexeme sequences'],
         explanation='Verus; per-token classification contracts.',
     ),
@@ -73,8 +76,9 @@ PROPS = {
         decided=[
             'every malformedness flag of the lexer (unterminated string/bitstring/block comment, empty int, empty exponent, bad version, invalid identifier) yields a non-empty message',
             'Converter::push records it under the index of that very token; nothing is recorded otherwise',
+            'numeric literals: empty_int / empty_exponent are set exactly when the OpenQASM 3 numeric syntax (num_spec) says so: a base prefix without digits, an exponent marker [sign] without digits',
         ],
-        not_decided=['that the lexer sets each flag exactly when the lexeme is malformed (stage B contracts on number/strings)',
+        not_decided=['that the string / comment scanners set `terminated` exactly when the closing delimiter was consumed',
                      'parse_text_check_lex / analyze_source gates (SEMA unit)', 'recursive have_syntax_errors over included files'],
         explanation='Verus.',
     ),
@@ -141,8 +145,10 @@ PROPS = {
             'Cast::to_texpr has the target type; MeasureExpression::to_texpr has the bit shape of its operand; UnaryExpr::to_texpr',
             'BinaryExpr::new_texpr_with_cast: result type is the common type (implicit_cast_type = promotion, float for integer division) and each operand has that type or is an explicit cast to exactly it',
             'identifier expressions carry the symbol type (lookup_identifier); equal_up_to_constness is exactly "equal up to const"',
+            'declaration rule (classical_declaration_statement_to_asg_stmt): the stored initializer has the declared type up to const, or is an explicit cast to exactly the declared type, or IncompatibleTypesError was reported last (carve-out: const / carve-out-typed non-literal values of another tower type)',
+            'assignment rule (assignment_stmt_to_asg_stmt): after the right-hand side, the target is resolved once, at most one type diagnostic follows, the stored value has exactly the variable type or is an explicit cast to it (carve-out: integer literal into a non-uint variable), MutateConstError is appended iff the target is a const symbol',
         ],
-        not_decided=['the declaration / assignment decision table as a postcondition of classical_declaration_statement_to_asg_stmt / assignment_stmt_to_asg_stmt (their helper predicates are under contract; the end-to-end rule is not stated yet)',
+        not_decided=['"a kind-lowering conversion / a narrowing of a non-constant is ALWAYS diagnosed" as a separate clause (it follows for the paths that reach promote_types / can_cast_literal from their contracts, but is not stated end to end)',
                      'types of call / index / range expressions beyond what their constructors assign'],
         explanation='Verus.',
     ),
@@ -163,8 +169,10 @@ PROPS = {
             'gate_call_expr_to_asg_stmt: after the operands and parameters, exactly [UndefGateError if unresolved] ++ [NumGateParamsError iff Gate(np,_) and np != |params|] ++ [NumGateQubitsError iff nq != |qubits|] / [IncompatibleTypesError iff resolved non-gate] are appended',
             'gate_operand_to_asg_texpr: an identifier operand is reported iff its type is not qubit / hardware qubit / qubit array',
             'Type::is_quantum is exactly {Qubit, QubitArray, HardwareQubit}; is_const exact',
+            'expr_to_asg_texpr, BinExpr arm: exactly one IncompatibleTypesError per quantum operand; ReturnExpr arm: ReturnInGlobalScopeError iff in global scope; call_expr_to_asg_texpr: NumDefParamsError iff the argument count differs (in-body tagged assertions)',
+            'assignment_stmt_to_asg_stmt: MutateConstError iff the target symbol is const',
         ],
-        not_decided=['qubit/gate/def/include outside global scope, non-duration delay (arms of stmt_to_asg_stmt)', 'BinExpr quantum-operand / ReturnInGlobalScope / NumDefParams / MutateConst as end-to-end postconditions (inside expr_to_asg_texpr / assignment: safety only)'],
+        not_decided=['qubit/gate/def/include outside global scope, non-duration delay (arms of stmt_to_asg_stmt: closures)'],
         explanation='Verus.',
     ),
     'C02': dict(
@@ -175,9 +183,10 @@ PROPS = {
             '(d) Parser::eat(K) advances by exactly 2 / 3 raw tokens for the composite kinds and only when the pieces are present and glued, 1 otherwise; do_bump is the only writer of pos; the Token event carries that count',
             '(f) Builder: do_token emits exactly one Token step carrying the text of the next n raw tokens; eat_trivias emits every pending trivia token in place; the Token steps handed to the sink cover the raw tokens [0, pos) consecutively (invariant preserved by token / exit / eat_trivias / do_token)',
         ],
-        not_decided=['(e) Output encode/decode identity (Kani harness, thorough tier)', 'intersperse_trivia loop and Builder::enter (iterators / closures): that every Output step reaches the builder in order, and token(..) preconditions hold there',
+        not_decided=['(e) Output encode/decode identity is decided in the thorough tier only (Kani, full domain for one event)', 'intersperse_trivia loop and Builder::enter (iterators / closures): that every Output step reaches the builder in order, and token(..) preconditions hold there',
                      'event::process keeps the order of Token events; rowan GreenNodeBuilder turns balanced Enter/Token/Exit streams into a tree whose text is the concatenation (external crate)',
                      '(g) the parser consumes all non-trivia tokens (source_file exits its loop only at EOF: proved as loop exit condition, not stated as a postcondition)'],
-        explanation='Verus: token accounting chain lexer -> LexedStr -> Input -> parser events -> Builder.',
+        explanation='Verus: token accounting chain lexer -> LexedStr -> Input -> parser events -> Builder; Kani (thorough): Output encode/decode.',
+        kani=True,
     ),
 }
